@@ -184,11 +184,13 @@ func (p *Prober) ProbeTimed(src string, gas int64, limit time.Duration) (ProbeRe
 			}
 			if peak > memGrowthLimit {
 				// do not wait for the machine to eat the box: report and let the caller drop the process
-				return ProbeResult{Class: "crash:mem-growth", Phase: "run",
+				return ProbeResult{Class: "crash:resource", Phase: "run",
 					Detail: fmt.Sprintf("live Go heap grew by %d MB during one probe (allocation cap %d MB, gas limit %d)", peak>>20, maxAllocTx>>20, gas)}, false
 			}
 		case <-deadline:
-			return ProbeResult{Class: "crash:hang", Phase: "?", Detail: "no result within " + limit.String()}, false
+			// (one class for both resource blow-ups: which of the two a quadratic run trips
+			// first depends on how fast the machine is)
+			return ProbeResult{Class: "crash:resource", Phase: "?", Detail: "no result within " + limit.String() + " although the gas is bounded"}, false
 		}
 	}
 }
